@@ -25,7 +25,7 @@ var InpkgTest = func() string {
 	return filepath.Join(core.VerifDir, "inpkg", "glob", "verif_glob_test.go")
 }()
 
-var sumRe = regexp.MustCompile(`VERIFGLOB seed=(\d+) pairs=(\d+) patterns=(\d+) matched=(\d+) limited=(\d+) fails=(\d+) fails_endsff=(\d+)`)
+var sumRe = regexp.MustCompile(`VERIFGLOB seed=(\d+) pairs=(\d+) patterns=(\d+) matched=(\d+) limited=(\d+) fails=(\d+) fails_endsff=(\d+) ambiguous=(\d+)`)
 var failRe = regexp.MustCompile(`VERIFGLOB-FAIL caller=(\S+) class=(\S+) (.*)`)
 
 // runOverlay is the in-package layer: Match(p,s) implies s within
@@ -85,6 +85,7 @@ func runOverlay(ctx *core.Ctx) {
 	ctx.Count("inpkg_limit_checks", atoi(m[5]))
 	ctx.Count("inpkg_fails", atoi(m[6]))
 	ctx.Count("inpkg_fails_prefix_ends_0xff", atoi(m[7]))
+	ctx.Count("inpkg_pairs_ambiguous_not_judged", atoi(m[8]))
 	if atoi(m[4]) > 0 && atoi(m[5]) > 0 {
 		ctx.Distinct("inpkg|limits")
 	}
